@@ -3,6 +3,7 @@ package rules
 import (
 	"go/token"
 	"go/types"
+	"strings"
 
 	"gldapverif/an"
 
@@ -40,14 +41,9 @@ func checkC17(c *Ctx) {
 		return
 	}
 	shipped := c.shippedFuncs(G)
-	var listen *ssa.Call
-	for _, ci := range an.Calls(m.run) {
-		if call, ok := ci.(*ssa.Call); ok && an.CalleeIs(ci.Common(), "net", "Listen") {
-			listen = call
-		}
-	}
+	listen := c.listenCall(m.run)
 	if listen == nil {
-		R.Fatal("Run: net.Listen not found")
+		R.Fatal("Run: no net.Listen* / tls.Listen call found")
 		return
 	}
 	isListenErr := func(v ssa.Value) bool {
@@ -85,6 +81,46 @@ func checkC17(c *Ctx) {
 		}
 		return false
 	}
+	// which Server fields does Ready() depend on?
+	readyFields := map[string]bool{}
+	an.Instrs(ready, func(in ssa.Instruction) {
+		if fa, ok := in.(*ssa.FieldAddr); ok && an.TypeIs(fa.X.Type(), G, "Server") {
+			if n := an.FieldAddrName(fa); n != "mu" {
+				readyFields[n] = true
+			}
+		}
+	})
+	if len(readyFields) == 0 {
+		R.Fail("C17-getter", "(*Server).Ready reads server state", c.P.Pos(ready.Pos()), "Ready does not depend on any Server field")
+	}
+	for fld := range readyFields {
+		if fld == "listenerReady" {
+			continue
+		}
+		// Ready derives readiness from another field (e.g. listener != nil): every store in Run that can make it
+		// non-zero must be control-dependent on the listen having succeeded
+		for _, fs := range fieldStores(shipped, G, "Server", fld) {
+			if an.IsNilConst(an.Strip(fs.Store.Val)) {
+				continue
+			}
+			if z, isC := an.BoolConst(fs.Store.Val); isC && !z {
+				continue
+			}
+			root := fs.Fn
+			for root.Parent() != nil {
+				root = root.Parent()
+			}
+			if root != m.run {
+				if _, isAlloc := an.Strip(fs.Base).(*ssa.Alloc); isAlloc {
+					continue // constructor
+				}
+				R.Fail("C17-who", fname(fs.Fn)+": store Server."+fld, c.pos(fs.Store), "Ready depends on Server."+fld+", which is written outside Run")
+				continue
+			}
+			okG := listenOK(fs.Store.Block()) && an.InstrDominates(listen, fs.Store)
+			R.Check(okG, "C17-guard", "(*Server).Run: Server."+fld+" (read by Ready) set only after a successful Listen", c.pos(fs.Store), "store is control-dependent on the listen error being nil", "Ready() depends on Server."+fld+", which is assigned even when the listen failed (a typed nil stored in an interface is non-nil): Ready can report true although Run returned a listen error")
+		}
+	}
 	nTrue := 0
 	for _, fs := range fieldStores(shipped, G, "Server", "listenerReady") {
 		val, isConst := an.BoolConst(fs.Store.Val)
@@ -118,7 +154,7 @@ func checkC17(c *Ctx) {
 			}
 		}
 	}
-	if nTrue == 0 {
+	if nTrue == 0 && readyFields["listenerReady"] {
 		R.Fail("C17-guard", "(*Server).Run: listenerReady = true only after a successful Listen", c.pos(listen), "Run never sets listenerReady")
 	}
 	// C17-errors: error returns that do not pass a successful Listen never follow a store of true
@@ -153,17 +189,28 @@ func checkC17(c *Ctx) {
 	ls := an.LockSets(ready, nil)
 	for _, ret := range an.Returns(ready) {
 		res := an.ReturnResults(ret)
-		v := an.Strip(res[0])
-		base, ok := fieldLoad(v, G, "Server", "listenerReady")
-		okLock := false
-		if ok {
-			if ld, isLd := v.(*ssa.UnOp); isLd {
-				okLock = ls[ld].Holds(an.Path(an.Strip(base))+".mu", true)
+		_ = res
+		okLock := true
+		nLoads := 0
+		an.Instrs(ready, func(in ssa.Instruction) {
+			ld, isLd := in.(*ssa.UnOp)
+			if !isLd || ld.Op != token.MUL {
+				return
 			}
-		}
-		R.Check(ok && okLock, "C17-getter", "(*Server).Ready returns listenerReady under Server.mu", c.pos(ret), "field read under the (read) lock", "Ready does not return the flag read under Server.mu")
+			fa, isF := ld.X.(*ssa.FieldAddr)
+			if !isF || !an.TypeIs(fa.X.Type(), G, "Server") || an.FieldAddrName(fa) == "mu" {
+				return
+			}
+			nLoads++
+			if !ls[ld].Holds(an.Path(an.Strip(fa.X))+".mu", true) {
+				okLock = false
+			}
+		})
+		R.Check(nLoads > 0 && okLock, "C17-getter", "(*Server).Ready reads its state under Server.mu", c.pos(ret), "fields read under the (read) lock", "Ready reads server state without holding Server.mu")
 	}
-	R.Floor("C17-who", 1)
+	if readyFields["listenerReady"] {
+		R.Floor("C17-who", 1)
+	}
 	R.Floor("C17-errors", 2)
 	R.NotDecided = append(R.NotDecided, "that the kernel completes handshakes from the moment of bind", "name resolution inside validateAddrPort")
 }
@@ -796,6 +843,35 @@ func checkC07(c *Ctx) {
 		// shutdown returns keep returning nil (shared with C11-run-nil)
 	}
 
+	// ---- C07-accept-nonblocking: the accept goroutine itself never performs per-connection I/O
+	// (a single client stalling in a handshake / read / write would stop the server from accepting).
+	nAcc := 0
+	for _, u := range c.socketUses() {
+		if u.Fn != m.run || len(u.Kind) < 8 || u.Kind[:7] != "method:" {
+			continue
+		}
+		meth := u.Kind[7:]
+		nAcc++
+		switch meth {
+		case "Handshake", "HandshakeContext", "Read", "Write", "VerifyHostname":
+			R.Fail("C07-accept-nonblocking", "(*Server).Run: "+meth+" on the accepted connection", c.pos(u.Instr), "the accept loop itself performs "+meth+" on the accepted connection: one client that stalls there keeps the server from accepting anyone else")
+		default:
+			R.OK("C07-accept-nonblocking", "(*Server).Run: "+meth+" on the accepted connection", c.pos(u.Instr), meth+" does not wait for the peer")
+		}
+	}
+	for _, ci := range an.Calls(m.run) {
+		if isGo(ci) || isDefer(ci) {
+			continue
+		}
+		if sf := an.StaticCallee(ci.Common()); sf != nil && an.InModule(sf) && sf != m.run {
+			r := syncReach(sf)
+			if r[m.serve] || (readRequest != nil && r[readRequest]) || r[m.muxServe] {
+				R.Fail("C07-accept-nonblocking", "(*Server).Run: synchronous call of "+fname(sf), c.pos(ci), "the accept loop runs connection/request code synchronously")
+			}
+		}
+	}
+	R.Trivial("C07-accept-nonblocking", "(*Server).Run: accept loop does no per-connection I/O", c.P.Pos(m.run.Pos()), sprintf("%d uses of the accepted socket in Run examined", nAcc))
+
 	// ---- C07-noexit / explicit panics
 	connSlice := map[*ssa.Function]bool{}
 	for f := range syncReach(m.connFn) {
@@ -913,6 +989,18 @@ func (c *Ctx) dischargeExplicitPanic(rule string, f *ssa.Function, p *ssa.Panic,
 // whose error was checked to be nil, and that constructor returns a fresh
 // allocation whenever it returns a nil error.
 func (c *Ctx) neverNil(v ssa.Value, at ssa.Instruction) bool {
+	if p, ok := an.Strip(v).(*ssa.Parameter); ok {
+		// a parameter of a helper with a single caller: judge the argument at that call site
+		if a, ok := an.UniqueCallerArg[p]; ok {
+			for _, f := range c.shippedFuncs(G) {
+				for _, ci := range an.Calls(f) {
+					if an.StaticCallee(ci.Common()) == p.Parent() {
+						return c.neverNil(a, ci)
+					}
+				}
+			}
+		}
+	}
 	v = an.Strip(v)
 	if _, ok := v.(*ssa.Alloc); ok {
 		return true
@@ -1301,4 +1389,28 @@ func (c *Ctx) startedBeforeFirstRead(start ssa.Instruction, m *serverModel) bool
 		return true
 	}
 	return false
+}
+
+// listenCall finds the call in Run that binds the listening socket: any
+// Listen* function / method of package net or crypto/tls returning (listener, error).
+func (c *Ctx) listenCall(run *ssa.Function) *ssa.Call {
+	var out *ssa.Call
+	for _, ci := range an.Calls(run) {
+		call, ok := ci.(*ssa.Call)
+		if !ok {
+			continue
+		}
+		f := call.Common().StaticCallee()
+		if f == nil {
+			continue
+		}
+		pp := an.FuncPkgPath(f)
+		if (pp == "net" || pp == "crypto/tls") && strings.HasPrefix(f.Name(), "Listen") && f.Signature.Results().Len() == 2 && isErrorType(f.Signature.Results().At(1).Type()) {
+			if out != nil {
+				c.R.Fatal("Run has several listen calls")
+			}
+			out = call
+		}
+	}
+	return out
 }
